@@ -23,7 +23,9 @@ RUN = "run_paths"
 CASE_TYPE = "pcase"
 
 KEYS = ["a", "b", "c", "d", "x", "y", "n", "port", "host", "a_b", "x_y", "Ab", "v1", "name", "mode",
-        "flag", "debug", "sub", "db", "http", "deep", "opt", "k2", "no_x", "no_flag", "b_c", "X"]
+        "flag", "debug", "sub", "db", "http", "deep", "opt", "k2", "no_x", "no_flag", "b_c", "X",
+        # keys whose option string has adjacent / trailing dashes after the '.'/'_' -> '-' mapping
+        "a_", "b__c", "x_", "dry__run", "class_", "n__", "c_d_", "no__x", "Y_"]
 ROOT_KEYS = ["root", "app", "sub"]
 
 
@@ -316,6 +318,13 @@ FIXED = [
                ("w", L("virtual", ("calc", True)))]),
     ("S", "", [("a", ("S", "a", [("b", ("S", "b", [("c", ("S", "c", [("d", L("int", (1, None), 5)),
                                                                          ("e", L("bool", (), True))]))]))]))]),
+    # adjacent dashes: `dry__run` -> --dry--run, `class_.enabled` -> --class--enabled, `a_` -> --a-
+    ("S", "", [("dry__run", L("bool", (), True)), ("a_", L("bool", (), None)), ("b__c", L("int", (0, 99), 3)),
+               ("class_", ("S", "class_", [("enabled", L("bool", (), True)), ("x_", L("str", (), "d")),
+                                           ("n__", ("S", "n__", [("no__x", L("bool", (), False)),
+                                                                 ("c_d_", L("float", (), 1.5))]))]))]),
+    ("S", "", [("x_", ("S", "x_", [("y", L("bool", (), False)), ("Y_", L("int", (None, None), 1))])),
+               ("no_", L("bool", (), True)), ("a", L("bool", (), True))]),
     ("S", "root", [("x", L("int", (None, None), 1)), ("s", ("S", "s", [("y", L("int", (None, None), 2))]))]),
     ("S", "root", [("root", ("S", "root", [("x", L("int", (None, None), 1))])), ("flag", L("bool", (), True))]),
 ]
@@ -333,7 +342,7 @@ def generate(rng, tier):
     sub1 = FIXED[1][2][2][1]
     cases.append(make_case(det, sub1, [""], "argv"))
     cases.append(make_case(det, sub1[2][1][1], ["", "sub"], "argv"))
-    cases.append(make_case(det, FIXED[4][2][1][1], ["root"], "empty"))
+    cases.append(make_case(det, FIXED[6][2][1][1], ["root"], "empty"))
     n = 1000 if tier == "quick" else 12000
     while len(cases) < n:
         r = rng.random()
